@@ -166,6 +166,11 @@ def main(tier, seed):
             lines.insert(target + 1, ' *   (skip) %s' % defect)
             expect_line = target + 1
             first_line_anns = ['nullable']
+        elif variant < 0.28 and kind in ('unknown-annotation', 'bad-option-count', 'bad-option', 'list-got-pairs'):
+            # the first line of the parameter is empty; its only annotations stand on the continuation line
+            lines[target] = ' * @%s:' % b['params'][k]['name']
+            lines.insert(target + 1, ' *   %s: the broken one' % defect)
+            expect_line = target + 1
         elif variant < 0.35:
             # comment text in front of the end token and code behind it: diagnosed on the last line
             kind = 'end-token'
